@@ -54,6 +54,10 @@ type Check interface {
 
 var registry = map[string]Check{}
 
+// Commands are extra sub-commands of the harness binary registered by checks (e.g. child
+// processes that must start from a fresh process state).
+var Commands = map[string]func(args []string) int{}
+
 func Register(c Check)    { registry[c.ID()] = c }
 func Get(id string) Check { return registry[id] }
 func IDs() []string {
